@@ -1,0 +1,103 @@
+//go:build verif
+
+package ssh
+
+import (
+	"net"
+	"time"
+)
+
+// Hooks for /verif property C37 (remote forward listeners).
+
+type verifC37NetConn struct{ p VerifC35PacketConn }
+type verifC37Addr struct{}
+
+func (verifC37Addr) Network() string { return "verif" }
+func (verifC37Addr) String() string  { return "verif" }
+
+func (c verifC37NetConn) Read(b []byte) (int, error)         { return 0, net.ErrClosed }
+func (c verifC37NetConn) Write(b []byte) (int, error)        { return 0, net.ErrClosed }
+func (c verifC37NetConn) Close() error                       { return c.p.Close() }
+func (c verifC37NetConn) LocalAddr() net.Addr                { return verifC37Addr{} }
+func (c verifC37NetConn) RemoteAddr() net.Addr               { return verifC37Addr{} }
+func (c verifC37NetConn) SetDeadline(t time.Time) error      { return nil }
+func (c verifC37NetConn) SetReadDeadline(t time.Time) error  { return nil }
+func (c verifC37NetConn) SetWriteDeadline(t time.Time) error { return nil }
+
+// VerifC37NewClient builds a real *Client (NewClient) on a real mux (newMux) that runs over the
+// harness-supplied packet pipe: exactly what NewClientConn+NewClient build after the handshake.
+func VerifC37NewClient(p VerifC35PacketConn, serverVersion string) *Client {
+	conn := &connection{sshConn: sshConn{conn: verifC37NetConn{p}, serverVersion: []byte(serverVersion)}}
+	conn.mux = newMux(verifC35PC{p})
+	return NewClient(conn, conn.mux.incomingChannels, conn.mux.incomingRequests)
+}
+
+// VerifC37ListenerBuffered returns the number of forwards sitting un-accepted in the listener's Go channel
+// (used by the harness only to detect quiescence, never as an observable).
+func VerifC37ListenerBuffered(l net.Listener) int {
+	switch l := l.(type) {
+	case *tcpListener:
+		return len(l.in)
+	case *unixListener:
+		return len(l.in)
+	}
+	return -1
+}
+
+// VerifC37ForwardsState: is the forwardList mutex currently held, how many entries are registered
+// (-1 if locked), and how many channel opens are queued before handleChannels.
+func VerifC37ForwardsState(c *Client) (locked bool, entries int, queued int) {
+	if c.forwards.TryLock() {
+		entries = len(c.forwards.entries)
+		c.forwards.Unlock()
+	} else {
+		locked, entries = true, -1
+	}
+	c.mu.Lock()
+	for _, h := range c.channelHandlers {
+		queued += len(h)
+	}
+	c.mu.Unlock()
+	if cn, ok := c.Conn.(*connection); ok {
+		queued += len(cn.mux.incomingChannels)
+	}
+	return
+}
+
+// VerifC37ConnRemoteID: the peer's channel id of a net.Conn returned by a forward listener's Accept.
+func VerifC37ConnRemoteID(c net.Conn) (uint32, bool) {
+	cc, ok := c.(*chanConn)
+	if !ok {
+		return 0, false
+	}
+	ch, ok := cc.Channel.(*channel)
+	if !ok {
+		return 0, false
+	}
+	return ch.remoteId, true
+}
+
+// VerifC37ListenerRegistered reports whether the listener's Go channel is still the channel of an entry of
+// the client's forward list (entries are removed exactly when their channel is closed). known=false when
+// the forward-list mutex is currently held. Used by the harness only to detect quiescence.
+func VerifC37ListenerRegistered(c *Client, l net.Listener) (registered, known bool) {
+	var in <-chan forward
+	switch l := l.(type) {
+	case *tcpListener:
+		in = l.in
+	case *unixListener:
+		in = l.in
+	default:
+		return false, false
+	}
+	if !c.forwards.TryLock() {
+		return false, false
+	}
+	defer c.forwards.Unlock()
+	for _, e := range c.forwards.entries {
+		if (<-chan forward)(e.c) == in {
+			return true, true
+		}
+	}
+	return false, true
+}
